@@ -300,12 +300,16 @@ fn gravsoft_grid_reader(buf: &[u8]) -> Result<(Vec<f64>, Vec<f32>), Error> {
     let dlon = header[5].copysign(lon_e - lon_w);
     let rows = ((lat_s - lat_n) / dlat + 1.5).floor() as usize;
     let cols = ((lon_e - lon_w) / dlon + 1.5).floor() as usize;
-    let bands = grid.len() / (rows * cols);
-    if (rows * cols * bands) > grid.len() || bands < 1 {
+    // A malformed header (zero or absurd spacing) gives zero or saturated counts
+    let Some(nodes) = rows.checked_mul(cols).filter(|&n| n > 0) else {
+        return Err(Error::General("Malformed Gravsoft header"));
+    };
+    let bands = grid.len() / nodes;
+    if (nodes * bands) > grid.len() || bands < 1 {
         return Err(Error::General("Incomplete Gravsoft grid"));
     }
 
-    if (rows * cols * bands) != grid.len() {
+    if (nodes * bands) != grid.len() {
         return Err(Error::General(
             "Unrecognized material at end of Gravsoft grid",
         ));
